@@ -125,6 +125,8 @@ STRUCTURED = [
     ("type.func", "@g = global void (i32, ...)* null\n", ["void (i32, ...)*"]),
     ("type.vec", "@g = global <4 x i32> zeroinitializer\n", ["<4 x i32>"]),
     ("type.scalable-vec", "@g = global <vscale x 4 x i32> zeroinitializer\n", ["<vscale x 4 x i32>"]),
+    ("type.scalable-vec-typedef", "%v = type <vscale x 2 x i32>\n\n@g = global %v zeroinitializer\n", ["%v = type <vscale x 2 x i32>"]),
+    ("type.vec-typedef", "%v = type <4 x i8>\n\n@g = global %v zeroinitializer\n", ["%v = type <4 x i8>"]),
     ("type.array", "@g = global [2 x [3 x i8]] zeroinitializer\n", ["[2 x [3 x i8]]"]),
     ("type.ptr-as", "@g = global i8 addrspace(5)* null\n", ["i8 addrspace(5)*"]),
     ("type.x86_mmx", "@g = external global x86_mmx\n", ["x86_mmx"]),
